@@ -724,7 +724,60 @@ func equivalentCheckConfigInV2(
 	if err != nil {
 		return nil, err
 	}
-	expectedRules = slicesext.Filter(expectedRules, func(rule bufcheck.Rule) bool { return !rule.Deprecated() })
+	// The source version (v1beta1 in particular) may have rules and categories that do not exist
+	// in v2. These cannot be referenced by a v2 configuration: such a category is replaced by its
+	// member rules, and a rule without a v2 counterpart is dropped with a warning.
+	idsInV2, categoryIDToRuleIDsInV2, err := ruleAndCategoryIDsInV2(ctx, client, ruleType)
+	if err != nil {
+		return nil, err
+	}
+	categoryIDToRuleIDs := getCategoryIDToRuleIDs(allRules)
+	toIDsInV2 := func(id string) []string {
+		if _, ok := idsInV2[id]; ok {
+			return []string{id}
+		}
+		ruleIDs := slicesext.Filter(
+			categoryIDToRuleIDs[id],
+			func(ruleID string) bool {
+				_, ok := idsInV2[ruleID]
+				return ok
+			},
+		)
+		if len(ruleIDs) == 0 {
+			logger.Warn(fmt.Sprintf("%s does not exist in v2 and has been dropped from the migrated configuration.", id))
+		}
+		return ruleIDs
+	}
+	// A category key of ignore_only stands for its member rules. A category that exists in
+	// both versions can only be kept if all of its members are also members in v2 (in v1beta1,
+	// FIELD_SAME_CARDINALITY is in WIRE and WIRE_JSON, in v2 it is not), otherwise the paths
+	// would no longer be ignored for the other members: name the member rules instead.
+	ignoreOnlyToIDsInV2 := func(id string) []string {
+		ids := toIDsInV2(id)
+		if ruleIDs, ok := categoryIDToRuleIDs[id]; ok && len(ids) == 1 && ids[0] == id {
+			ruleIDs = slicesext.Filter(
+				ruleIDs,
+				func(ruleID string) bool {
+					_, ok := idsInV2[ruleID]
+					return ok
+				},
+			)
+			if slices.ContainsFunc(
+				ruleIDs,
+				func(ruleID string) bool { return !slices.Contains(categoryIDToRuleIDsInV2[id], ruleID) },
+			) {
+				return ruleIDs
+			}
+		}
+		return ids
+	}
+	expectedRules = slicesext.Filter(
+		expectedRules,
+		func(rule bufcheck.Rule) bool {
+			_, ok := idsInV2[rule.ID()]
+			return ok && !rule.Deprecated()
+		},
+	)
 	expectedIDs := slicesext.Map(
 		expectedRules,
 		func(rule bufcheck.Rule) string {
@@ -736,10 +789,10 @@ func equivalentCheckConfigInV2(
 	// is a simple translation. It may or may not be equivalent to the given check config.
 	simplyTranslatedCheckConfig, err := bufconfig.NewEnabledCheckConfig(
 		bufconfig.FileVersionV2,
-		undeprecateSlice(checkConfig.UseIDsAndCategories(), deprecations),
-		undeprecateSlice(checkConfig.ExceptIDsAndCategories(), deprecations),
+		translateSlice(undeprecateSlice(checkConfig.UseIDsAndCategories(), deprecations), toIDsInV2),
+		translateSlice(undeprecateSlice(checkConfig.ExceptIDsAndCategories(), deprecations), toIDsInV2),
 		checkConfig.IgnorePaths(),
-		undeprecateMap(checkConfig.IgnoreIDOrCategoryToPaths(), deprecations),
+		translateIgnoreOnly(undeprecateMap(checkConfig.IgnoreIDOrCategoryToPaths(), deprecations), ignoreOnlyToIDsInV2),
 		checkConfig.DisableBuiltin(),
 	)
 	if err != nil {
@@ -776,6 +829,18 @@ func equivalentCheckConfigInV2(
 			return !ok
 		},
 	)
+	if len(simplyTranslatedCheckConfig.UseIDsAndCategories()) == 0 && len(missingIDs) > 0 {
+		// An empty use means "the default rules". Adding the missing rules to it would switch
+		// the defaults off, so name all rules explicitly.
+		return bufconfig.NewEnabledCheckConfig(
+			bufconfig.FileVersionV2,
+			expectedIDs,
+			nil,
+			simplyTranslatedCheckConfig.IgnorePaths(),
+			simplyTranslatedCheckConfig.IgnoreIDOrCategoryToPaths(),
+			simplyTranslatedCheckConfig.DisableBuiltin(),
+		)
+	}
 	return bufconfig.NewEnabledCheckConfig(
 		bufconfig.FileVersionV2,
 		append(simplyTranslatedCheckConfig.UseIDsAndCategories(), missingIDs...),
@@ -784,6 +849,74 @@ func equivalentCheckConfigInV2(
 		simplyTranslatedCheckConfig.IgnoreIDOrCategoryToPaths(),
 		simplyTranslatedCheckConfig.DisableBuiltin(),
 	)
+}
+
+// ruleAndCategoryIDsInV2 returns the IDs of all rules of the given type and of all categories
+// in v2, and the member rule IDs of the v2 categories.
+func ruleAndCategoryIDsInV2(
+	ctx context.Context,
+	client bufcheck.Client,
+	ruleType check.RuleType,
+) (map[string]struct{}, map[string][]string, error) {
+	rules, err := client.AllRules(ctx, ruleType, bufconfig.FileVersionV2)
+	if err != nil {
+		return nil, nil, err
+	}
+	categories, err := client.AllCategories(ctx, bufconfig.FileVersionV2)
+	if err != nil {
+		return nil, nil, err
+	}
+	ids := make(map[string]struct{}, len(rules)+len(categories))
+	for _, rule := range rules {
+		ids[rule.ID()] = struct{}{}
+	}
+	for _, category := range categories {
+		ids[category.ID()] = struct{}{}
+	}
+	return ids, getCategoryIDToRuleIDs(rules), nil
+}
+
+// getCategoryIDToRuleIDs returns the IDs of the non-deprecated member rules for every category.
+func getCategoryIDToRuleIDs(rules []bufcheck.Rule) map[string][]string {
+	categoryIDToRuleIDs := make(map[string][]string)
+	for _, rule := range rules {
+		if rule.Deprecated() {
+			continue
+		}
+		for _, category := range rule.Categories() {
+			categoryIDToRuleIDs[category.ID()] = append(categoryIDToRuleIDs[category.ID()], rule.ID())
+		}
+	}
+	return categoryIDToRuleIDs
+}
+
+// translateSlice replaces every ID with the IDs that translate gives for it.
+func translateSlice(ids []string, translate func(string) []string) []string {
+	newIDs := make([]string, 0, len(ids))
+	for _, id := range ids {
+		newIDs = append(newIDs, translate(id)...)
+	}
+	return newIDs
+}
+
+// translateIgnoreOnly replaces every key with the IDs that translate gives for it. If several
+// keys end up as the same ID, the paths are merged, and a path within another path is dropped.
+func translateIgnoreOnly(idToPaths map[string][]string, translate func(string) []string) map[string][]string {
+	newIDToPaths := make(map[string][]string, len(idToPaths))
+	for _, id := range slicesext.MapKeysToSortedSlice(idToPaths) {
+		for _, newID := range translate(id) {
+			paths := append(newIDToPaths[newID], idToPaths[id]...)
+			newIDToPaths[newID] = slicesext.Filter(
+				slicesext.ToUniqueSorted(paths),
+				func(path string) bool {
+					return !slices.ContainsFunc(paths, func(other string) bool {
+						return normalpath.ContainsPath(other, path, normalpath.Relative)
+					})
+				},
+			)
+		}
+	}
+	return newIDToPaths
 }
 
 // undeprecateSlice transforms the given slice of IDs so that any deprecated
